@@ -30,10 +30,11 @@ ACTIONS = ["Tick", "RecvIntroReq", "RecvSimResp", "RecvIntroResp", "RecvPong", "
            "EdgeNbh", "EdgeStart", "EdgeGrow"]
 INVARIANTS = ["TypeOK", "NetOK", "WalkWindow", "NoOwnAddress", "EdgeShape", "EdgeBound"]
 PROPERTIES = ["DropOnlyAfterSilence", "PingDiscipline", "WalkTargets", "ForgetOnlyUnreachable", "WalkSpacing",
-              "EdgeGrowsVerified"]
+              "EdgeGrowsVerified", "PongCounted"]
 CONTROLS = [("ctl_dropearly", "DropOnlyAfterSilence", "churn that drops after inactive_time violates DropOnlyAfterSilence"),
             ("ctl_nopingguard", "DropOnlyAfterSilence", "churn that drops without a ping on record violates DropOnlyAfterSilence"),
             ("ctl_pingflood", "PingDiscipline", "churn that pings at every step violates PingDiscipline"),
+            ("ctl_pongunmatched", "PongCounted", "pongs that never match their ping cache (pinned send_ping) violate PongCounted"),
             ("ctl_nowindow", "WalkWindow", "random walk without the window test violates WalkWindow"),
             ("ctl_walkverified", "WalkTargets", "random walk over verified addresses violates WalkTargets"),
             ("ctl_forgetanswered", "DropOnlyAfterSilence", "walk time-out that forgets answering peers violates DropOnlyAfterSilence"),
@@ -83,7 +84,7 @@ def graph_of(cfg, workers=None):
 
 def replay_job(job):
     """(cfg, max_ops, seed) -> summary dict; runs in a forked worker: TLC dump + replay of the graph on the real code"""
-    cfg, max_ops, seed = job
+    cfg, max_ops, seed, gt0 = job
     setup_repo_path()
     from .. import g01_world as gw
     gw.env()
@@ -96,7 +97,7 @@ def replay_job(job):
     keys, sample, violation = [], None, None
     t0 = time.monotonic()
     for init, walk in edge_cover(g, max_ops=max_ops, seed=seed):
-        w = gw.World(names, par)
+        w = gw.World(names, par, gt0=gt0)
         labels = []
         d0 = diff_states(gw.spec_view(g.states[init]), w.project())
         if d0:
@@ -114,7 +115,7 @@ def replay_job(job):
                 violation = ("replay:%s:%s" % (name, what),
                              "real strategies diverge from Discovery.tla (%s) after %s%s: %s %s"
                              % (cfg, name, _plain(args), _plain(d), probs),
-                             {"cfg": cfg, "actions": labels, "diff": _plain(d), "choice_problems": probs})
+                             {"cfg": cfg, "gt0": gt0, "actions": labels, "diff": _plain(d), "choice_problems": probs})
                 break
         nwalks += 1
         keys.append(hash((cfg, tuple(walk))))
@@ -175,7 +176,8 @@ def rerun_replay(ctx, gw, path):
     cfg = rep["cfg"]
     par = read_cfg(cfg)
     _r, g = graph_of(cfg)
-    w = gw.World({"peers": par["Peers"], "ghosts": par["Ghosts"], "trackers": par["Trackers"]}, par)
+    w = gw.World({"peers": par["Peers"], "ghosts": par["Ghosts"], "trackers": par["Trackers"]}, par,
+                 gt0=rep.get("gt0", 0))
     cur = g.init[0]
     done = []
     for name, args in rep["actions"]:
@@ -219,10 +221,10 @@ PROFILES = [
     dict(name="defaults", Window=5, WalkTimeout=6, TargetInterval=0, TargetPeers=-1, MaxPeers=-1, EdgeLen=4, NbSize=2,
          EdgeTimeout=6, SampleSize=8, PingInterval=20, InactiveTime=55, DropTime=115, BootTimeout=60,
          ticks=420, npeers=6, loss=0.05, delay=0.1, down=0.004, up=0.01),
-    # shortened churn timers: many drops and returns
+    # shortened churn timers: many drops and returns; the observer has already claimed 65300 global times
     dict(name="fast-churn", Window=2, WalkTimeout=4, TargetInterval=0, TargetPeers=-1, MaxPeers=-1, EdgeLen=3, NbSize=2,
          EdgeTimeout=3, SampleSize=2, PingInterval=6, InactiveTime=12, DropTime=30, BootTimeout=40,
-         ticks=300, npeers=5, loss=0.15, delay=0.15, down=0.02, up=0.03),
+         ticks=300, npeers=5, loss=0.15, delay=0.15, down=0.02, up=0.03, gt0=65300),
     # limits: target_peers gate, max_peers, target_interval, window 1
     dict(name="limits", Window=1, WalkTimeout=3, TargetInterval=3, TargetPeers=3, MaxPeers=2, EdgeLen=3, NbSize=1,
          EdgeTimeout=2, SampleSize=1, PingInterval=4, InactiveTime=10, DropTime=24, BootTimeout=20,
@@ -239,7 +241,7 @@ def record(gw, profile, seed):
     par.update(UseWalk=True, UseEdge=True, UseChurn=True, MaxPings=5, PingCacheTimeout=10)
     names = {"peers": ["p%d" % i for i in range(1, profile["npeers"] + 1)], "ghosts": [], "trackers": ["t1"]}
     w = gw.LiveWorld(names, par, random.Random(seed), unit=0.5, loss=profile["loss"], delay=profile["delay"],
-                     down=profile["down"], up=profile["up"])
+                     down=profile["down"], up=profile["up"], gt0=profile.get("gt0", 0))
     events = w.run(profile["ticks"])
     return {"profile": profile["name"], "seed": seed, "par": par, "names": names, "ticks": profile["ticks"],
             "events": events}
@@ -346,11 +348,11 @@ def explain(prev, ev):
         return "?", "?"
     if prev is None:
         return "first", json.dumps(ev)[:300]
-    changed = sorted(k for k in ev if k in prev and k not in ("a", "p", "x", "w", "ch", "d", "now", "out_reqs", "out_pings")
+    changed = sorted(k for k in ev if k in prev and k not in ("a", "p", "x", "t", "w", "ch", "d", "now", "out_reqs", "out_pings")
                      and ev[k] != prev[k])
     detail = {k: {"before": prev[k], "after": ev[k]} for k in changed}
     detail["out_reqs"], detail["out_pings"] = ev.get("out_reqs"), ev.get("out_pings")
-    args = {k: ev[k] for k in ("p", "x", "w", "ch", "d") if k in ev}
+    args = {k: ev[k] for k in ("p", "x", "t", "w", "ch", "d") if k in ev}
     return ",".join(changed) or "out", "args %s changes %s" % (json.dumps(args), json.dumps(detail)[:900])
 
 
@@ -406,8 +408,11 @@ def run(tier, seed, replay=None):
     t_start = time.monotonic()
     mc_cfgs = ["walk_slow", "walk_q", "edge_q", "churn_q"] if quick else \
         ["walk_slow", "walk", "edge", "churn", "all", "walk3", "edge_nb2"]
-    r_cfgs = [("r_walk2", None), ("r_edge", None), ("r_churn1", 10000 if quick else None),
-              ("r_churn", 10000 if quick else 150000), ("r_walk", 10000 if quick else 150000)]
+    # (tag, configuration, operations budget, global time the observer starts with)
+    r_cfgs = [("r_walk2", "r_walk2", None, 0), ("r_edge", "r_edge", None, 0),
+              ("r_churn1", "r_churn1", 10000 if quick else None, 0),
+              ("r_churn", "r_churn", 10000 if quick else 150000, 0), ("r_walk", "r_walk", 10000 if quick else 150000, 0),
+              ("r_churn1_gt", "r_churn1", 5000 if quick else None, 65533)]
     n_per = 2 if quick else 12
 
     # worker processes (forked before any thread exists) drive the real code: one per replay graph, one per profile
@@ -415,7 +420,7 @@ def run(tier, seed, replay=None):
     pool = ThreadPoolExecutor(max_workers=4)
     phases = {}
     try:
-        replays = {c: procs.apply_async(replay_job, (("Discovery_%s.cfg" % c, m, seed),)) for c, m in r_cfgs}
+        replays = {t: procs.apply_async(replay_job, (("Discovery_%s.cfg" % c, m, seed, g0),)) for t, c, m, g0 in r_cfgs}
         records = [procs.apply_async(record_job, ((pi, [seed * 1000 + pi * 100 + i for i in range(n_per)]),))
                    for pi in range(len(PROFILES))]
         ctl = {c[0]: pool.submit(run_tlc, "Discovery.tla", "Discovery_%s.cfg" % c[0], coverage=False, workers=2)
@@ -454,7 +459,7 @@ def run(tier, seed, replay=None):
 
         # ---- binding R
         coverage = {}
-        for c, _m in r_cfgs:
+        for c, _c, _m, _g in r_cfgs:
             r = merge_replay(ctx, c, replays[c].get(timeout=6000))
             for a, (_d, t) in r.coverage.items():
                 coverage[a] = coverage.get(a, 0) + t
